@@ -151,6 +151,36 @@ def task(fmt, pos, ver, payloads):
     return st
 
 
+def scalar_task(fmt, payloads):
+    """The same payloads through the scalar API (dump_scalar -> parse_scalar), one value per call: str, uri, ref display, xstr payload."""
+    import hszinc as hs
+    st = Stats()
+    mode = hs.MODE_ZINC if fmt == 'zinc' else hs.MODE_JSON
+    for x in payloads:
+        for kind, n in (('str', ('str', x)), ('uri', ('uri', x)), ('ref-display', ('ref', 'r', x)), ('xstr-payload', ('xstr', 'Foo', x))):
+            st.count('executions')
+            st.count('payload_cells')
+            sig = {'fmt': fmt, 'position': 'scalar-api:' + kind, 'payload': describe(x)}
+            if len(x) == 1:
+                sig['cp'] = ord(x)
+            case = {'fmt': fmt, 'pos': 'scalar-api', 'ver': '3.0', 'payload': [ord(c) for c in x]}
+            try:
+                v = O.build(n, hs)
+                text = hs.dump_scalar(v, mode=mode, version=hs.VER_3_0)
+            except Exception as e:  # noqa
+                st.fail('dump-raised', sig, case, {'exc': repr(e)[:200], 'payload': repr(x)})
+                continue
+            try:
+                got = O.observe(hs.parse_scalar(text, mode=mode, version=hs.VER_3_0), hs)
+            except Exception as e:  # noqa
+                st.fail('reparse-raised', sig, case, {'exc': repr(e)[:200], 'dumped': repr(text)[:300], 'payload': repr(x)})
+                continue
+            if N.same(n, got, 'exact'):
+                st.fail('payload-kind-changed' if got[0] != n[0] else 'payload-changed', sig, case, {'dumped': repr(text)[:300], 'payload': repr(x), 'observed': N.show(got, 200)})
+        st.inputs.add(hash((fmt, 'scalar-api', x)) & 0xffffffffffffffff)
+    return st
+
+
 def regex_boundaries():
     """Code points on both sides of every range boundary / literal that appears in the regex
     literals and escape tables of the anchored files (read at run time, so a changed range changes
@@ -227,6 +257,9 @@ def run(ctx):
     st = Stats()
     for part in pmap(task, tasks, ctx.jobs):
         st.merge(part)
+    spl = [chr(c) for c in cont_cps] + cont_strings
+    for part in pmap(scalar_task, [(fmt, c) for fmt in ('zinc', 'json') for c in chunks(spl, ctx.jobs)], ctx.jobs):
+        st.merge(part)
     cells = st.c.get('payload_cells', 0)
     st.c['states'] = cells + st.c.get('executions', 0)
     st.c['transitions'] = cells + st.c.get('executions', 0) - 1
@@ -238,7 +271,7 @@ def run(ctx):
         'single_outcome_ok': True,
         'rule': 'complete enumeration of (payload x position x format): payload = every listed code point as a 1-character string and every '
                 'string of length <= %d (cells) / <= %d (container positions) over the 19-symbol metacharacter alphabet plus prefix look-alikes; '
-                'packed per grid and bisected on failure; evaluations = documents dumped and re-parsed; distinct = distinct (format, position, '
+                'packed per grid and bisected on failure; plus the container-position payloads as str / uri / ref display / xstr payload through the scalar API of both formats; evaluations = documents dumped and re-parsed; distinct = distinct (format, position, '
                 'version, payload); every payload is non-trivial (it is placed between two sentinel cells in a two-grid document)' % (
                     3, 2 if ctx.quick else 3),
         'coverage': {'bounds': {'code_points': len(cps), 'all_code_points': not ctx.quick, 'cell_positions': CELL_POS, 'container_positions': CONT_POS,
@@ -252,4 +285,7 @@ def run(ctx):
 
 def replay(case, st):
     payload = ''.join(chr(c) for c in case['payload'])
+    if case['pos'] == 'scalar-api':
+        st.merge(scalar_task(case['fmt'], [payload]))
+        return
     st.merge(task(case['fmt'], case['pos'], case['ver'], [payload]))
